@@ -248,7 +248,7 @@ func (m *Machine) panicString(v Value) string {
 			return v.T.String() + ": " + s.String()
 		}
 		// error values: try Error()
-		if fn := m.P.prog.LookupMethod(v.T, nil, "Error"); fn != nil {
+		if fn := m.findMethod(v.T, "Error"); fn != nil {
 			var res string
 			func() {
 				defer func() { recover() }()
@@ -439,5 +439,5 @@ func (m *Machine) choose(label string, n int) int {
 	in := m.path.NewInput(label, kind, SBV(64))
 	in.Lo, in.Hi = 0, int64(n-1)
 	m.path.assert(BVCmp(OpBVUlt, in.T, BV(64, uint64(n))))
-	return int(m.path.Concretize(in.T))
+	return int(m.concretize(in.T))
 }
